@@ -25,7 +25,12 @@ RULE = ("seeded random operation histories over 3 registers, 3 integer variables
 def gen(ck, n, length, profile):
     hs = []
     for i in range(n):
-        hs.append(hist.history(ck.rng, i + 1, length=length, profile=profile, params=ck.rng.choice(PARAMS)))
+        if ck.rng.random() < 0.2:
+            # relational histories over 4 integer variables (closure code of zones/octagons needs chains of 4)
+            hs.append(hist.history(ck.rng, i + 1, nints=4, nbools=0, length=length + 2, profile=profile, stmt_profile="rel",
+                                   params=ck.rng.choice(PARAMS)))
+        else:
+            hs.append(hist.history(ck.rng, i + 1, length=length, profile=profile, params=ck.rng.choice(PARAMS)))
     return hs
 
 
@@ -54,6 +59,20 @@ def run_generic(pid, profile, tier, seed, domains=None, extra_domains=(), n_quic
             ck.sample({"history": hs[0], "domains": doms})
         done += m
         k += 1
+    # directed families for the relational domains (cheap: few domains, short histories)
+    fam = {"C03": hist.chain_closure_history, "C04": hist.point_leq_history}.get(pid)
+    if fam is not None:
+        rdoms = [d for d in doms if d in ("intervals", "sparse_dbm", "split_dbm", "split_oct", "term_sdbm", "as_sdbm", "pack_sdbm",
+                                         "fixed_tvpi", "lw_soct", "num_product", "pow_sdbm", "ref_split_dbm", "ref_split_oct", "bool_dbm")]
+        nf = 400 if tier == "quick" else 6000
+        for off in range(0, nf, 1000):
+            hs = [fam(ck.rng, 500000 + off + i, params=ck.rng.choice(PARAMS)) for i in range(min(1000, nf - off))]
+            fails, knowns, _ = domops.run_batch(ck, "fam%d" % off, hs, rdoms, box=box, univ=univ)
+            allf += fails
+            allk += knowns
+            for h in hs:
+                nontriv.add(json.dumps(h["steps"], sort_keys=True))
+        ck.cov["directed_family"] = {"name": fam.__name__, "histories": nf, "domains": rdoms}
     ck.cov["distinct_nontrivial"] = len(nontriv)
     ck.cov["histories"] = n
     ck.cov["domains"] = doms
